@@ -16,6 +16,7 @@ The index suite ties the model to BlockProcessor/DB methods called one by one; t
 glue that decides *when* they are called."""
 import asyncio
 
+from harness import common
 from harness.common import SuiteResult, rng_for, run_evdrv
 from harness.world.chaingen import Gen, be, hashx_of, NORMAL_SCRIPTS, UNSPENDABLE_SCRIPTS
 from harness.world.daemon import SimDaemon
@@ -412,6 +413,8 @@ def compare_trace(res, h, label):
 def run(tier, seed):
     res = SuiteResult('sync')
     for idx in range({'quick': 80, 'thorough': 1000}[tier]):
+        if common.out_of_time():
+            break
         h = Hist(res, seed, idx, tier, forward=True)
         fails = h.run()
         res.note_case('F|' + '|'.join(h.events), nontrivial=any('pressure' in e for e in h.events))
@@ -426,6 +429,8 @@ def run(tier, seed):
                 'non-trivial = the history contains a reorg, a pressure event or a restart')
     n = {'quick': 200, 'thorough': 3000}[tier]
     for idx in range(n):
+        if common.out_of_time():
+            break
         h = Hist(res, seed, idx, tier)
         fails = h.run()
         res.note_case('|'.join(h.events), nontrivial=any(('reorg' in e or 'pressure' in e or 'restart' in e) for e in h.events))
